@@ -1515,9 +1515,16 @@ def run_centroid(s, o):
     sb = o['search2']
     out['quadratic_search'] = np.asarray(centroid_quadratic(data, xpeak=int(px), ypeak=int(py), search_boxsize=sb,
                                                             fit_boxsize=o['fit_boxsize'], mask=mask))
+    def near_centre(c):
+        # the cutout is centred on the source (+-1 px); a Gaussian fit that ends more than 3 px away has locked on
+        # something else (a neighbour at the cutout edge, a noise ridge) and is multi-modal -> reported as NaN
+        c = np.array(c, dtype=float)
+        if np.all(np.isfinite(c)) and (abs(c[0] - hx) > 3.0 or abs(c[1] - hy) > 3.0):
+            c[:] = np.nan
+        return c
     if o['fits']:
-        out['1dg'] = sane(centroid_1dg(data, error=err, mask=mask), data.shape)
-        out['2dg'] = sane(centroid_2dg(data, error=err, mask=mask), data.shape)
+        out['1dg'] = near_centre(sane(centroid_1dg(data, error=err, mask=mask), data.shape))
+        out['2dg'] = near_centre(sane(centroid_2dg(data, error=err, mask=mask), data.shape))
     pos = np.asarray(o['pos'])
     kw = dict(box_size=o['box_size']) if o['footprint'] is None else dict(footprint=o['footprint'])
     full_mask = s['mask'] if o['use_mask'] else None
@@ -1645,7 +1652,7 @@ SPEC_PSF = _TableSpec(free_unit=('flux_init', 'flux_fit', 'flux_err', 'local_bkg
                       qfit=K('free', rtol=1e-2, atol=1e-3, md=True), cfit=K('free', rtol=1e-2, atol=1e-3, md=True),
                       model_image=K('frame', per_row=False, rtol=1e-2, aamp=3e-2, unit='data'),
                       resid_image=K('frame', per_row=False, rtol=1e-2, aamp=3e-2, unit='data'),
-                      n=K('free', per_row=False), window_tie=K('skip'))
+                      flags=K('free', md=True), n=K('free', per_row=False), window_tie=K('skip'))
 
 
 def prep_psf(rng, scene):
@@ -1733,6 +1740,11 @@ def run_psf(s, o):
         ill = ~(np.isfinite(col('x_err')) & np.isfinite(col('y_err')) & (col('x_err') <= 1.0) & (col('y_err') <= 1.0))
         # no significant flux: qfit / cfit (residuals normalised by the fitted flux) and the position blow up
         ill |= (np.abs(col('qfit')) > 5.0) | (np.abs(col('flux_fit')) < 3.0 * np.abs(col('flux_err')))
+        # fits that ran away from their initial position or were flagged (outside the image, negative flux, not
+        # converged, no covariance, at the bounds) are not converged solutions of anything
+        ill |= (np.abs(col('x_fit') - col('x_init')) > 2.0) | (np.abs(col('y_fit') - col('y_init')) > 2.0)
+        if 'flags' in t.colnames:
+            ill |= (np.asarray(t['flags']).astype(int) & (2 | 4 | 8 | 16 | 32)) != 0
     cond = np.where(ill, np.inf, 1.0)
     out['window_tie'] = bool(out['window_tie'] or ill.any())
     x, y = np.asarray(t['x_init'], float), np.asarray(t['y_init'], float)
@@ -1868,6 +1880,7 @@ SPEC_TOOLS = _FreeSpec(sf_labels=K('frame', per_row=False), cutout_data=K('img',
                        mask_cutout=K('img', per_row=False), mask_multiply=K('img', per_row=False),
                        epsf_data=K('free', per_row=False, rtol=1e-6, atol=1e-6),
                        fit2dg=K('free', per_row=False, rtol=1e-6, atol=1e-6),
+                       fit2dg_flux=K('free', per_row=False, rtol=1e-6, atol=1e-6),
                        fitfwhm=K('free', per_row=False, rtol=1e-6, atol=1e-6),
                        imagepsf_eval=K('free', per_row=False, unit=None))
 
